@@ -192,6 +192,7 @@ class UKF(EKF):
         P = self.compute_cov(ex, ex, w, Q)
 
         xs, w = self.sigma_weight_points(xe, P, k)
+        ex = xe - xs
         ys = self.model.observation(xs, u, t)
         ye = (w * ys).sum(dim=-2)
         ey = ye - ys
